@@ -31,9 +31,9 @@ INFO = {
 def jobs(tier):
     out = []
 
-    def add(key, op, shape, ranks=None, budget=600, cost=20):
-        out.append({'name': f'{key}-{op}-{H.shape_str(shape)}' + (('-' + H.ranks_str(ranks)) if ranks is not None else ''), 'model': key, 'op': op,
-                    'shape': list(shape), 'ranks': list(ranks) if ranks is not None else None, 'budget': budget, 'cost': cost})
+    def add(key, op, shape, ranks=None, budget=600, cost=20, pc=False):
+        out.append({'name': f'{key}-{op}-{H.shape_str(shape)}' + (('-' + H.ranks_str(ranks)) if ranks is not None else '') + ('-pc' if pc else ''), 'model': key, 'op': op,
+                    'shape': list(shape), 'ranks': list(ranks) if ranks is not None else None, 'budget': budget, 'cost': cost, 'pc': pc})
     for key in H.ALL:
         tm = key in H.TM
         cells = [((1, 1), (0, 1)), ((1, 1), (0, 0)), ((2, 1), (1, 0)), ((2, 1), (0, 0)), ((3, 1), (0, 1))]
@@ -52,6 +52,9 @@ def jobs(tier):
         for shape, ranks in cells:
             big = sum(shape) > 6
             add(key, 'rate', shape, ranks, budget=(1200 if big or tm else 600) if tier == 'quick' else 3000, cost=(300 if big else 100) if tm else (100 if big else 10))
+        # tau given per call on a model built with tau = 0: "sigma = 0 allowed when tau > 0" must hold for the per-call tau too
+        for shape, ranks in [((1, 1), (0, 1)), ((1, 1), (0, 0)), ((2, 1), (1, 0))]:
+            add(key, 'rate', shape, ranks, budget=900 if tm else 600, cost=100 if tm else 10, pc=True)
         for op in PR.OPS:
             for shape in [(1, 1), (2, 1), (1, 1, 1), (2, 2, 2), (8, 8)] + ([(1, 1, 1, 1)] if op != 'predict_rank' else []) + \
                     ([(16, 16), (1,) * 8] if tier == 'thorough' and op != 'predict_rank' else []):
@@ -83,8 +86,12 @@ def run_job(spec, ctx):
 
     def run():
         if rate:
-            m, teams = H.build_game(Model, shape, mk)
-            out = m.rate(teams, ranks=list(spec['ranks']))
+            if spec.get('pc'):
+                m, teams = H.build_game(Model, shape, mk, tau=0.0)
+                out = m.rate(teams, ranks=list(spec['ranks']), tau=mk('tau'))
+            else:
+                m, teams = H.build_game(Model, shape, mk)
+                out = m.rate(teams, ranks=list(spec['ranks']))
             return [[(p.mu, p.sigma) for p in t] for t in out]
         m = Model(beta=mk('beta'))
         return PR.call(m, op, PR.build_teams(m, shape, mk))
@@ -97,6 +104,9 @@ def run_job(spec, ctx):
     for (kind, out), eng in core.iter_paths(run, base, draw, opts=opts):
         ctx.paths += 1
         if len(ctx.candidates) >= 3:
+            break
+        if ctx.paths > 500:
+            ctx.ob(f'{op}: more than 500 paths in this cell (exploration stopped)', 'unknown')
             break
         if ctx.vacuity['checked'] == 0:
             ctx.vacuity['checked'] += 1
@@ -137,6 +147,24 @@ def run_job(spec, ctx):
                 cands = [{'spec': spec, 'inputs': inp} for inp in H.witness_models(eng, cond, names, H.nice_pins(shape) if rate else ())]
                 H.mark_last(cands)
             ctx.ob(f'{op}: guard {what} cannot be refuted: {str(cond)[:160]}', 'sat' if cands else 'unknown', cands or None)
+        # structure: one number (pair) per team / player, whatever float underflow does on this path
+        if rate:
+            ok_struct = isinstance(out, list) and len(out) == len(shape) and all(isinstance(t, list) and len(t) == n for t, n in zip(out, shape))
+        elif op == 'predict_draw':
+            ok_struct = not isinstance(out, (list, tuple))
+        else:
+            ok_struct = isinstance(out, list) and len(out) == len(shape)
+        if not ok_struct:
+            inp = None
+            for k_, al in enumerate(eng.alive):
+                if al:
+                    inp = {n_: eng.env[k_][n_] for n_ in names}
+            if inp is None:
+                r, m = eng.check(timeout=30000)
+                inp = core.model_inputs(m, names) if r == 'sat' else H.corner_inputs(names, 1)[0]
+            inp = dict(inp)
+            inp['__alt__'] = H.corner_inputs(names)
+            ctx.ob(f'{op}: result has one entry per team and player', 'sat', {'spec': spec, 'inputs': inp})
         # results are defined terms; "finite" = defined and no modelled overflow
         ctx.ob(f'{op}: path returns normally with every guard refuted', 'unsat' if not still_open else 'unknown',
                sample={'model': key, 'op': op, 'shape': list(shape), 'ranks': spec['ranks'], 'guards_refuted': discharged})
@@ -150,15 +178,23 @@ def replay(cand):
     Model = H.model_class(key)
     try:
         if op == 'rate':
-            m, teams = H.build_game(Model, shape, H.float_maker(inp))
-            out = m.rate(teams, ranks=list(spec['ranks']))
+            if spec.get('pc'):
+                m, teams = H.build_game(Model, shape, H.float_maker(inp), tau=0.0)
+                out = m.rate(teams, ranks=list(spec['ranks']), tau=float(inp['tau']))
+            else:
+                m, teams = H.build_game(Model, shape, H.float_maker(inp))
+                out = m.rate(teams, ranks=list(spec['ranks']))
             vals = [x for t in out for p in t for x in (p.mu, p.sigma)]
         else:
             m, teams = PR.float_teams(key, shape, inp)
             vals = list(H._flatten(PR.call(m, op, teams)))
         bad = [v for v in vals if isinstance(v, float) and not math.isfinite(v)]
+        want = 2 * sum(shape) if op == 'rate' else (1 if op == 'predict_draw' else (2 * len(shape) if op == 'predict_rank' else len(shape)))
+        if len(vals) != want:
+            return {'violated': True, 'key': f'{key}:{op}:{H.shape_str(shape)}:structure',
+                    'detail': f'C08 {H.MODEL_NAMES[key]}.{op} shape={shape} ranks={spec["ranks"]} inputs={inp}: returns {len(vals)} numbers instead of {want}'}
         return {'violated': bool(bad), 'key': f'{key}:{op}:{H.shape_str(shape)}:nonfinite',
                 'detail': f'C08 {H.MODEL_NAMES[key]}.{op} shape={shape} ranks={spec["ranks"]} inputs={inp}: non-finite values {bad[:3]}'}
-    except (ArithmeticError, ValueError) as e:
+    except (ArithmeticError, ValueError, IndexError, KeyError, TypeError) as e:
         return {'violated': True, 'key': f'{key}:{op}:{H.shape_str(shape)}:{type(e).__name__}',
                 'detail': f'C08 {H.MODEL_NAMES[key]}.{op} shape={shape} ranks={spec["ranks"]} inputs={inp}: raises {e!r}'}
